@@ -122,7 +122,7 @@ def SS.run (s : SS) : List SSOp → SS
   | op :: ops => SS.run (s.step op) ops
 
 def SS.show (s : SS) : String :=
-  s!"desc={showNatList (s.ents.map (·.el))} h={s.heaviest} l={s.lightest}"
+  s!"desc={showOrDigest (s.ents.map (·.el))} h={s.heaviest} l={s.lightest}"
 
 def SS.stepLine (s : SS) (toks : List String) : SS × String :=
   match toks with
